@@ -378,6 +378,32 @@ func check(ctx *pbt.Ctx, c Case) error {
 		return fmt.Errorf("%s(%s, input %d spending %s) failed: %v", c.Path, typeName(ht), s, kind, err)
 	}
 	sm := ref.FromLib(tx) // the transaction as the library left it
+	// signing installs unlocking scripts on the signed inputs and nothing else: every other
+	// field of the transaction the signature is for must still be what it was
+	{
+		isSigned := map[int]bool{}
+		for _, i := range signedIdx {
+			isSigned[i] = true
+		}
+		if sm.Version != c.Tx.Version || sm.LockTime != c.Tx.LockTime || len(sm.In) != len(c.Tx.In) || len(sm.Out) != len(c.Tx.Out) {
+			return fmt.Errorf("signing via %s changed version/locktime/counts of the transaction", c.Path)
+		}
+		for i := range sm.Out {
+			if sm.Out[i].Sats != c.Tx.Out[i].Sats || !bytes.Equal(sm.Out[i].Script, c.Tx.Out[i].Script) {
+				return fmt.Errorf("signing input %d via %s with %s changed output %d of the transaction: %d/%x -> %d/%x", s, c.Path, typeName(ht), i,
+					c.Tx.Out[i].Sats, []byte(c.Tx.Out[i].Script), sm.Out[i].Sats, []byte(sm.Out[i].Script))
+			}
+		}
+		for i := range sm.In {
+			a, b := c.Tx.In[i], sm.In[i]
+			if !bytes.Equal(a.TxID, b.TxID) || a.Vout != b.Vout || a.Seq != b.Seq || a.PrevSats != b.PrevSats || !bytes.Equal(a.PrevScript, b.PrevScript) {
+				return fmt.Errorf("signing input %d via %s with %s changed outpoint/sequence/spent output of input %d", s, c.Path, typeName(ht), i)
+			}
+			if !isSigned[i] && !bytes.Equal(a.Unlock, b.Unlock) {
+				return fmt.Errorf("signing input %d via %s changed the unlocking script of input %d, which was not signed", s, c.Path, i)
+			}
+		}
+	}
 	era := "pre-genesis"
 	if c.AfterGenesis {
 		era = "after-genesis"
@@ -415,6 +441,39 @@ func check(ctx *pbt.Ctx, c Case) error {
 			return fmt.Errorf("input %d signed via %s with %s: signature does not verify against the specified digest %x (reference) for that hash type",
 				i, c.Path, typeName(ht), refDigest(sm, i, ht))
 		}
+	}
+
+	// ---- part 1c: sign, edit the same object in place, sign again. The new signature is made
+	// for the transaction as it now stands and must be accepted for it.
+	if c.Path == "FillInput" {
+		tx2 := tx // the very object that was just signed
+		salt := c.Salt
+		switch salt % 4 {
+		case 0:
+			if len(tx2.Outputs) > 0 {
+				tx2.Outputs[int(salt/4)%len(tx2.Outputs)].Satoshis ^= 1 << (salt % 40)
+			}
+		case 1:
+			if len(tx2.Outputs) > 0 {
+				o := tx2.Outputs[int(salt/4)%len(tx2.Outputs)]
+				ns := append(append([]byte{}, *o.LockingScript...), 0x61)
+				o.LockingScript = bscript.NewFromBytes(ns)
+			}
+		case 2:
+			tx2.Inputs[int(salt/4)%len(tx2.Inputs)].SequenceNumber ^= 1 << (salt % 31)
+		default:
+			j := int(salt/4) % len(tx2.Inputs)
+			tx2.Inputs[j].PreviousTxOutIndex ^= 1 << (salt % 31)
+		}
+		if err := tx2.FillInput(context.Background(), &unlocker.Simple{PrivateKey: priv}, bt.UnlockerParams{InputIdx: uint32(s), SigHashFlags: flag}); err != nil {
+			return fmt.Errorf("re-signing input %d after an in-place edit failed: %v", s, err)
+		}
+		sm2 := ref.FromLib(tx2)
+		if verr := verify(sm2, s, ht, c.AfterGenesis); verr != nil {
+			return fmt.Errorf("input %d re-signed via FillInput with %s after an in-place edit (class %d) of the same transaction object is rejected for the transaction as it now stands: %v",
+				s, typeName(ht), salt%4, verr)
+		}
+		ctx.Label("resigned_after_edit")
 	}
 
 	// ---- part 2: coverage. One mutation at a time, same unlocking script.
